@@ -80,6 +80,24 @@ def hdr_enc(ver: int, length: int, flags: int, code: int, app: int, hbh: int, e2
     return hx.check((ver, length, flags, code, app, hbh, e2e), obs, exp, "20-byte header layout / flag properties")
 
 
+def hdr_enc_long(length: int, ver: int, flags: int, code: int) -> bool:
+    """
+    pre: 0x1000000 <= length <= 0xffffffffff and 0 <= ver <= 255 and 0 <= flags <= 255 and 0 <= code <= 0xffffff
+    post: _
+    """
+    hx.begin()
+    # Message.as_bytes sets header.length = 20 + len(AVP bytes) itself: any value can arise.  A total the 24-bit field
+    # cannot hold must be refused - emitted, it would run into the version octet and desynchronise the stream
+    try:
+        h = MessageHeader(ver, 0, flags, code, 1, 2, 3)
+        h.length = length
+        w = h.as_bytes()
+        res = ("emitted", len(w))
+    except Exception as e:
+        res = ("refused", 0)
+    return hx.check((length, ver, flags, code), res, ("refused", 0), "a message length beyond 24 bits must not be encoded")
+
+
 def _mk_avps(c1, v1, f1, p1, c2, f2, p2, k):
     """k in 0..3 AVPs: generic with vendor, generic, grouped(generic) ; returns (Avp list, reference bytes)"""
     avps, ref = [], b""
@@ -379,6 +397,7 @@ def search_hist(b0: bool, b1: bool, b2: bool, b3: bool, b4: bool, b5: bool, b6: 
 def specs(tier, seed, carve):
     q = tier == "quick"
     out = [dict(id="hdr_enc", fn="hdr_enc", params={}, timeout=120, bound="all versions, lengths (24 bit), flag octets, command codes (24 bit), 32-bit ids")]
+    out.append(dict(id="hdr_enc_long", fn="hdr_enc_long", params={"opaquefmt": True}, timeout=120, bound="every total length in [2^24, 2^40) (set by Message.as_bytes from the AVP bytes), all versions, flag octets, command codes"))
     lens = [(0, 1), (3, 4)] if q else [(0, 1), (3, 4), (1, 2), (2, 0), (4, 3)]
     for k in (0, 1, 2, 3):
         for (l1, l2) in (lens if k else lens[:1]):
